@@ -262,7 +262,11 @@ impl GroupCommitQueue {
             pending
         };
 
+        #[cfg(kahflane_turdb_verif)]
+        crate::verif::yield_point("gc.enqueued");
         self.wait_for_completion(&pending)?;
+        #[cfg(kahflane_turdb_verif)]
+        crate::verif::yield_point("gc.wait_returned");
 
         Ok(pending.batch_id)
     }
@@ -294,6 +298,11 @@ impl GroupCommitQueue {
         // Use a generous timeout for the actual flush operation, as disk I/O can be slow
         // especially under load or with large batches. 10ms (old) was deemed too short.
         let timeout = Duration::from_secs(30);
+        #[cfg(kahflane_turdb_verif)]
+        let timeout = match crate::verif::group_commit_timeout_ms() {
+            0 => timeout,
+            ms => Duration::from_millis(ms),
+        };
         let start = Instant::now();
 
         while !pending.is_completed() {
@@ -366,6 +375,8 @@ impl GroupCommitQueue {
         for commit in commits {
             commit.mark_completed();
         }
+        #[cfg(kahflane_turdb_verif)]
+        crate::verif::yield_point("gc.marked_completed");
 
         self.stats.record_flush(batch_size);
 
@@ -387,6 +398,13 @@ impl GroupCommitQueue {
             state.flush_in_progress = false;
         }
         self.flush_complete.notify_all();
+    }
+
+    /// (pending length, flush_in_progress), read under the queue lock (verification accessor).
+    #[cfg(kahflane_turdb_verif)]
+    pub fn verif_state(&self) -> (usize, bool) {
+        let s = self.state.lock();
+        (s.pending.len(), s.flush_in_progress)
     }
 
     /// Get the number of pending commits
